@@ -321,7 +321,7 @@ func mutJSON(r *rand.Rand, b []byte) ([]byte, string) {
 			s := strings.NewReplacer("[", "{", "]", "}").Replace(string(b))
 			return []byte(s), "arrays turned into objects"
 		case 2:
-			return []byte("null"), "null document"
+			return pick(r, [][]byte{[]byte("null"), []byte("[]"), []byte("{}"), []byte("[7]"), []byte("[[]]"), []byte("0")}), "degenerate document"
 		}
 		return mutGeneric(r, b)
 	}
@@ -383,6 +383,32 @@ var hostileURLs = []string{
 	"gray/blocks/0_0_0/-1", "gray/blocks/0_0_0/1000000000", "gray/blocks/x/1", "gray/subvolblocks/16_16_16/1_1_1", "gray/subvolblocks/0_0_0/0_0_0", "gray/specificblocks?blocks=1", "gray/rawkey?x=a", "gray/isotropic/0_1/0_0/0_0_0",
 	"lsz/count/0/AllSyn", "lsz/count/1/Nope", "lsz/top/-1/AllSyn", "lsz/top/99999999999/PreSyn", "lsz/threshold/x/AllSyn", "lsz/threshold/1/AllSyn?offset=-5&n=-7", "lsz/counts/AllSyn",
 }
+
+// every "<instance>/<endpoint>" of the list above is also requested bare, without the arguments its handler indexes
+func init() {
+	seen := map[string]bool{}
+	for _, u := range hostileURLs {
+		seen[u] = true
+	}
+	var extra []string
+	for _, u := range hostileURLs {
+		p := u
+		if i := strings.IndexByte(p, '?'); i >= 0 {
+			p = p[:i]
+		}
+		parts := strings.Split(p, "/")
+		if len(parts) >= 3 {
+			if b := parts[0] + "/" + parts[1]; !seen[b] {
+				seen[b] = true
+				extra = append(extra, b)
+			}
+		}
+	}
+	hostileURLs = append(hostileURLs, extra...)
+}
+
+// hostileNodeSpecs: malformed "<uuid>:<branch>~<n>" version specifications (%s = root uuid)
+var hostileNodeSpecs = []string{"%s:master~-1", "%s:master~99999999999999999999", "%s:master~x", "%s:master~", "%s:", "%s:nosuch~0", "%s:master~0~0", ":master", "%s:master~2147483648", "%s~1", "%s:master:master"}
 
 func (x *c20Exec) headBase(name string) string { return x.e.base(x.head, name) }
 
@@ -714,7 +740,7 @@ func (C20) Execute(sc *drv.Scenario, w *drv.World) (*drv.Violation, error) {
 				for _, m := range []string{"GET", "POST", "DELETE"} {
 					var body []byte
 					if m == "POST" {
-						body = []byte("[1,2,3]")
+						body = [][]byte{[]byte("[1,2,3]"), []byte("[]"), []byte("{}"), []byte("[7]")}[ui%4]
 					}
 					rq := proto.Req{Client: "c0", Kind: "http", Method: m, URL: "/api/node/" + hu + "/" + u, Body: body}
 					if inst := strings.SplitN(u, "/", 2)[0]; m != "GET" {
@@ -751,6 +777,31 @@ func (C20) Execute(sc *drv.Scenario, w *drv.World) (*drv.Violation, error) {
 						sweepPanics.Detail += fmt.Sprintf("hostile URL %s %s answered by a recovered panic: %s\n", m, rq.URL, drv.PanicSig(string(res.Resps[0].Body)))
 					}
 					cnt++
+				}
+			}
+			if op.N == 0 {
+				root := e.x.uuid(0)
+				for _, spec := range hostileNodeSpecs {
+					if strings.Contains(spec, "%s") {
+						spec = fmt.Sprintf(spec, root)
+					}
+					for _, u := range []string{"/api/node/" + spec + "/kv/info", "/api/node/" + spec + "/kv/key/a", "/api/repo/" + spec + "/info", "/api/node/" + spec + "/note"} {
+						res, err := w.Batch([]proto.Req{drv.GET(u)}, "barrier")
+						if err != nil {
+							if errors.Is(err, drv.ErrChildDied) {
+								d := strings.Join(w.Stats.ChildDeaths, "\n")
+								return viol("process-death", "process-death:"+drv.PanicSig(d), fmt.Sprintf("hostile version specification GET %s killed the server\n%s", u, d), i), nil
+							}
+							return nil, err
+						}
+						if !res.Wedged && isPanic500(res.Resps[0]) {
+							if sweepPanics == nil {
+								sweepPanics = viol("panic-500", "panic-500:"+drv.PanicSig(string(res.Resps[0].Body)), "", i)
+							}
+							sweepPanics.Detail += fmt.Sprintf("hostile version specification GET %s answered by a recovered panic: %s\n", u, drv.PanicSig(string(res.Resps[0].Body)))
+						}
+						cnt++
+					}
 				}
 			}
 			if sweepPanics != nil {
